@@ -204,6 +204,8 @@ class TokenStore(Generic[_T]):
     def _splice(self, tokens: Sequence[_T], start: tuple[int, int], end: tuple[int, int]) -> None:
         start_i, start_j = start
         end_i, end_j = end
+        if end < start:
+            raise ValueError('Range ends before it starts.')
 
         for token in tokens:
             if token.store_handle is not None and (
